@@ -32,7 +32,8 @@
 //    even continues with t + h == t); states returned before are still judged (C11: except those
 //    in the last 20% of the simulated time before the failure / stall, i.e. the approach to
 //    the point the integrator declared impassable);
-//  * every run is bounded by a count of returned states (no wall clock anywhere).
+//  * every run is bounded by counts of returned states and of internal steps (internal step
+//    limit 500 per stepTo call; no wall clock anywhere).
 //
 // C11 judgement: drift / scale <= min(K acc^alpha, 5%) or else (two-sided) the drift of a rerun at
 // acc/100 must have shrunk 3x; violations are attributed (reference integrator, leave-one-out).
@@ -529,6 +530,7 @@ template <class F> static RunResult simulate(Ctx& c, Built& b, const Spec& sp, c
     if (o.allowInterp >= 0) integ->setAllowInterpolation(o.allowInterp == 1);
     if (o.fullNewton >= 0) integ->setForceFullNewton(o.fullNewton == 1);
     integ->setReturnEveryInternalStep(o.returnEvery);
+    integ->setInternalStepLimit(500);     // so that a single stepTo() cannot run unboundedly (counted budget below)
     if (o.finalTime) integ->setFinalTime(o.T);
     if (o.integ != IK_SEE) { if (o.stepMode == 1) integ->setMinimumStepSize(o.hMin); else if (o.stepMode == 2) integ->setFixedStepSize(o.hFixed); }
     TimeStepper ts(b.m.sys, *integ);
@@ -562,7 +564,7 @@ template <class F> static RunResult simulate(Ctx& c, Built& b, const Spec& sp, c
         c.setPhase(std::string("monitor ") + ikName(o.integ) + " " + skName(kind));
         if (!onState(rs, kind, integ->isStateInterpolated(), *integ)) { R.outcome = "guard"; break; }
         if (st == Integrator::EndOfSimulation || integ->isSimulationOver()) break;
-        if (R.nStates >= o.maxStates) { R.outcome = "state-budget"; break; }
+        if (R.nStates >= o.maxStates || integ->getNumStepsTaken() >= 8 * o.maxStates) { R.outcome = "state-budget"; break; }
         if (st == Integrator::ReachedReportTime && rs.getTime() >= tRep) {
             if (rep >= o.nTargets) break;
             ++rep; tRep = (rep == o.nTargets) ? o.T : o.T * rep / o.nTargets;
